@@ -35,6 +35,7 @@ var (
 	fPlan     = flag.String("sim.plan", "", "plan file for -sim.cmd=run")
 	fTrace    = flag.String("sim.trace", "", "write the canonical trace here")
 	fDeadline = flag.Float64("sim.deadline", 0, "wall-clock budget in seconds for a batch (0 = none)")
+	fPlanWall = flag.Float64("sim.planwall", 0, "real-time budget in seconds for one plan of a batch (0 = none): a plan over it is abandoned at its next step boundary")
 	fVerbose  = flag.Bool("sim.v", false, "print the trace")
 	fNoWarm   = flag.Bool("sim.nowarm", false, "no throw-away plan first (checks that run one plan per process: every plan is then the first of its process, in exploration and in replay alike)")
 )
@@ -77,7 +78,9 @@ func Main(t *testing.T, h Harness) {
 			seed := *fFrom + uint64(i)**fStride
 			p := h.Generate(*fProp, *fTier, seed)
 			marker(seed)
+			planWall = time.Duration(*fPlanWall * float64(time.Second))
 			res, run := ExecPlan(t, h, p, false)
+			planWall = 0
 			writeResult(res)
 			if *fTrace != "" {
 				os.WriteFile(fmt.Sprintf("%s.%d", *fTrace, seed), []byte(run.TraceText()), 0o644)
@@ -131,6 +134,9 @@ func writeResult(res *Result) {
 	emit(string(b) + "\n")
 }
 
+// planWall is the real-time budget of the plans of a batch (exploration only).
+var planWall time.Duration
+
 // ExecPlan runs one plan in a fresh bubble and returns its result.
 func ExecPlan(t *testing.T, h Harness, p *Plan, keepTrace bool) (*Result, *Run) {
 	run := NewRun(p)
@@ -150,6 +156,7 @@ func ExecPlan(t *testing.T, h Harness, p *Plan, keepTrace bool) (*Result, *Run) 
 	restoreRand := seedCryptoRand(p.Seed)
 	defer restoreRand()
 	w0 := time.Now() // outside the bubble: real time
+	run.SetWallBudget(planWall)
 	errText := ""
 	func() {
 		defer func() {
